@@ -28,8 +28,10 @@ fn factory_for(dir: &Path, sources: Vec<MemReader>) -> PipelineFactory {
 		let reg = reg.clone();
 		Box::pin(async move {
 			let key = Path::new(&filename).file_name().unwrap().to_string_lossy().to_string();
+			// "src1" answers lookups after 3 suspensions, "src2" after 2, ...: the first listed source is the slowest
+			let idx: usize = key.trim_start_matches(|c: char| !c.is_ascii_digit()).parse().unwrap_or(1);
 			match reg.lock().unwrap().get(&key) {
-				Some(m) => Ok(Box::new(m.clone()) as Box<dyn TilesReaderTrait>),
+				Some(m) => Ok(Box::new(crate::mem::SlowMemReader { inner: m.clone(), yields: 4usize.saturating_sub(idx) }) as Box<dyn TilesReaderTrait>),
 				None => Err(anyhow::anyhow!("unknown source {key}")),
 			}
 		})
